@@ -25,7 +25,11 @@ def main():
     also = []
     if "--also" in sys.argv:
         also = sys.argv[sys.argv.index("--also") + 1].split(",")
-    src = "/tmp/mut/%s/out/%s" % (prop, n)
+    rnd = "out"
+    if "--round" in sys.argv:
+        rnd = sys.argv[sys.argv.index("--round") + 1]
+    tag = "%s-%s" % (prop, n) if rnd == "out" else "%s-%s-%s" % (prop, rnd.replace("out", "r"), n)
+    src = "/tmp/mut/%s/%s/%s" % (prop, rnd, n)
     patch = os.path.join(src, "patch.diff")
     demo = os.path.join(src, "demo.py")
     assert os.path.exists(patch) and os.path.exists(demo), "missing patch.diff / demo.py in " + src
@@ -90,7 +94,7 @@ def main():
         notes = open(os.path.join(src, "notes.md")).read() if os.path.exists(os.path.join(src, "notes.md")) else ""
         meta["needs_to_manifest"] = notes[:1500]
         if valid:
-            dst = os.path.join(ROOT, "seeded", "%s-%s" % (prop, n))
+            dst = os.path.join(ROOT, "seeded", tag)
             os.makedirs(dst, exist_ok=True)
             shutil.copy(patch, os.path.join(dst, "patch.diff"))
             shutil.copy(demo, os.path.join(dst, "demo.py"))
@@ -98,8 +102,8 @@ def main():
                 shutil.copy(os.path.join(src, "notes.md"), os.path.join(dst, "notes.md"))
             with open(os.path.join(dst, "meta.json"), "w") as f:
                 json.dump(meta, f, indent=1)
-        print("SEED %s-%s applies=%s suite_ok=%s demo_clean_rc=%s demo_patched_rc=%s confirmed=%s caught_by=%s" % (
-            prop, n, meta["applies"], meta["suite_ok"], meta["demo_clean"]["rc"], meta["demo_patched"]["rc"], meta["confirmed"], meta["caught_by"]))
+        print("SEED %s applies=%s suite_ok=%s demo_clean_rc=%s demo_patched_rc=%s confirmed=%s caught_by=%s" % (
+            tag, meta["applies"], meta["suite_ok"], meta["demo_clean"]["rc"], meta["demo_patched"]["rc"], meta["confirmed"], meta["caught_by"]))
         for p, v in caught.items():
             print("   %s exit=%s %s %s" % (p, v["exit"], v.get("mechanisms", ""), v["summary"][-150:]))
         return 0
